@@ -525,9 +525,10 @@ Proof.
       split; [exact I2|]. split; [exact T2|]. split; [lia|]. intros out Hf. apply F1, F2, Hf.
 Qed.
 
-(* the complete output of a run that starts in state e *)
-Definition renc_output (e : renc) (t : probs) (evs : list event) : list Z :=
-  renc_bytes (renc_finish (fst (renc_events e t evs))).
+(* the complete output of a run that starts in state e
+(a notation, not a definition: a constant here makes the kernel unfold renc_bytes/shift_low first when
+   it compares the folded with the unfolded form, which takes minutes) *)
+Notation renc_output e t evs := (renc_bytes (renc_finish (fst (renc_events e t evs)))) (only parsing).
 
 Lemma renc_output_fut e t evs :
   renc_inv e -> probs_ok t -> forallb ev_ok evs = true ->
